@@ -258,7 +258,7 @@ impl Interval {
     /// Returns the `NAN` interval if the input is invalid
     #[inline]
     pub fn asin(self) -> Self {
-        if self.lower < -1.0 || self.upper > 1.0 {
+        if self.has_nan() || self.lower < -1.0 || self.upper > 1.0 {
             f32::NAN.into()
         } else if self.lower() == self.upper() {
             self.lower.asin().into()
@@ -271,7 +271,7 @@ impl Interval {
     /// Returns the `NAN` interval if the input is invalid
     #[inline]
     pub fn acos(self) -> Self {
-        if self.lower < -1.0 || self.upper > 1.0 {
+        if self.has_nan() || self.lower < -1.0 || self.upper > 1.0 {
             f32::NAN.into()
         } else if self.lower() == self.upper() {
             self.lower.acos().into()
@@ -282,19 +282,27 @@ impl Interval {
     /// Computes the arctangent of the interval
     #[inline]
     pub fn atan(self) -> Self {
-        Interval::new(self.lower.atan(), self.upper.atan())
+        if self.has_nan() {
+            f32::NAN.into()
+        } else {
+            Interval::new(self.lower.atan(), self.upper.atan())
+        }
     }
     /// Computes the exponent function applied to the interval
     #[inline]
     pub fn exp(self) -> Self {
-        Interval::new(self.lower.exp(), self.upper.exp())
+        if self.has_nan() {
+            f32::NAN.into()
+        } else {
+            Interval::new(self.lower.exp(), self.upper.exp())
+        }
     }
     /// Computes the natural log of the input interval
     ///
     /// Returns the `NAN` interval if the input contains zero
     #[inline]
     pub fn ln(self) -> Self {
-        if self.lower <= 0.0 {
+        if self.has_nan() || self.lower <= 0.0 {
             f32::NAN.into()
         } else {
             Interval::new(self.lower.ln(), self.upper.ln())
@@ -305,7 +313,7 @@ impl Interval {
     /// If the interval contains values below 0, returns a `NAN` interval.
     #[inline]
     pub fn sqrt(self) -> Self {
-        if self.lower < 0.0 {
+        if self.has_nan() || self.lower < 0.0 {
             f32::NAN.into()
         } else {
             Interval::new(self.lower.sqrt(), self.upper.sqrt())
